@@ -1,6 +1,7 @@
 package main
 
 import (
+	"go/token"
 	"fmt"
 	"go/types"
 	"reflect"
@@ -21,6 +22,7 @@ const pkgGrouperPlugins = "pkg/podgrouper/podgrouper/plugins"
 
 func runC18(c *Ctx) {
 	runC18OwnerIdentity(c)
+	runC18Wiring(c)
 	p, fx := c.P, c.Fx
 	apply := c.Anchor("O1", pkgPGHandler, "Handler", "ApplyToCluster")
 	ignore := c.Anchor("O2", pkgPGHandler, "Handler", "ignoreFields")
@@ -39,6 +41,58 @@ func runC18(c *Ctx) {
 			a := eq.(ssa.CallInstruction).Common().Args[1]
 			c.Check(derivesFromCallTo(a, ignore), "O1", "PROV", funcKey(apply)+": compares the object returned by ignoreFields", instrPos(eq), "podGroupsEqual(old, ignoreFields(...))", "the comparison does not use the object whose foreign-owned fields were restored")
 		}
+	}
+	// what is written is what was compared: the object handed to Update is the result of ignoreFields, or is filled
+	// from it by a helper that receives both (updatePodGroup(stored, desired))
+	for _, in := range instrsIn(apply, isInvokeNamed("Update")) {
+		args := in.(ssa.CallInstruction).Common().Args
+		var U ssa.Value
+		for _, a := range args {
+			if mi, ok := a.(*ssa.MakeInterface); ok && strings.HasSuffix(typeKey(mi.X.Type()), "PodGroup") {
+				U = mi.X
+			}
+		}
+		if U == nil {
+			c.Undec("O1", "PROV", funcKey(apply)+": the object written is the one whose foreign-owned fields were restored", instrPos(in), "the object handed to Update was not recognised")
+			continue
+		}
+		ok := derivesFromCallTo(U, ignore)
+		desc := "Update(ignoreFields(...))"
+		nFill := 0
+		if !ok {
+			for _, cin := range instrsIn(apply, func(x ssa.Instruction) bool { _, isC := x.(*ssa.Call); return isC }) {
+				call := cin.(*ssa.Call)
+				cal := calleeOf(call)
+				if cal == nil || !hasModPrefix(cal) || sameFunc(cal, equal) || sameFunc(cal, ignore) || !dominatesInstr(cin, in) {
+					continue
+				}
+				hasU := false
+				var others []ssa.Value
+				for _, a := range call.Call.Args {
+					if a == U {
+						hasU = true
+					} else if types.Identical(a.Type(), U.Type()) {
+						others = append(others, a)
+					}
+				}
+				if !hasU || len(others) == 0 {
+					continue
+				}
+				nFill++
+				ok = true
+				for _, o := range others {
+					if !derivesFromCallTo(o, ignore) {
+						ok = false
+					}
+				}
+				desc = cal.Name() + "(stored, ignoreFields(...)) then Update(stored)"
+			}
+			if nFill == 0 {
+				ok = false
+			}
+		}
+		c.Check(ok, "O1", "PROV", funcKey(apply)+": the object written is the one whose foreign-owned fields were restored", instrPos(in), desc,
+			"the PodGroup handed to Update is not (filled from) the result of ignoreFields: whenever a real change triggers an update, spec.markUnschedulable / schedulingBackoff / queue and the queue and node-pool labels set by other actors are overwritten with the computed values")
 	}
 	for _, in := range instrsIn(apply, isInvokeNamed("Create")) {
 		d, ok := hasFact(fx.FactsAt(in), func(f Fact) bool { return f.Pol && isCallNamed(f.T, "IsNotFound") })
@@ -184,6 +238,50 @@ func runC18(c *Ctx) {
 		c.Floor("O3", "FIELDS omitempty collection fields set", n, 1)
 	}
 
+	// ---- O3 (maps): the computed labels / annotations of an unchanged workload compare equal to the stored ones. The
+	// computed maps are built with make() and may be empty while the API server hands back nil for an empty map: a
+	// "source given, target nil" shortcut then reports a difference although no key differs. Every 'unequal' verdict
+	// of the map comparison must be justified by a key of the source map (it is returned from inside the range over it).
+	nm := 0
+	for _, h := range p.deepFind(equal, func(in ssa.Instruction) bool {
+		cc, ok := in.(*ssa.Call)
+		if !ok || calleeOf(cc) == nil || !hasModPrefix(calleeOf(cc)) || len(cc.Call.Args) != 2 {
+			return false
+		}
+		_, m0 := cc.Call.Args[0].Type().Underlying().(*types.Map)
+		_, m1 := cc.Call.Args[1].Type().Underlying().(*types.Map)
+		return m0 && m1 && isBoolType(cc.Type())
+	}, 1) {
+		cmp := calleeOf(h.In.(*ssa.Call))
+		if cmp.Blocks == nil {
+			continue
+		}
+		nm++
+		okAll, where := true, token.NoPos
+		for _, b := range cmp.Blocks {
+			ret, isRet := b.Instrs[len(b.Instrs)-1].(*ssa.Return)
+			if !isRet || len(ret.Results) != 1 {
+				continue
+			}
+			k, isK := ret.Results[0].(*ssa.Const)
+			if isK && k.Value != nil && k.Value.ExactString() == "false" && !insideLoopBody(b) {
+				okAll, where = false, instrPos(ret)
+			}
+			if !isK {
+				// a computed verdict: it must not be taken from the nil-ness of the maps
+				if strings.Contains(termOf(ret.Results[0]).String(), "== nil") || strings.Contains(termOf(ret.Results[0]).String(), "!= nil") {
+					okAll, where = false, instrPos(ret)
+				}
+			}
+		}
+		if where == token.NoPos {
+			where = cmp.Pos()
+		}
+		c.Check(okAll, "O3", "RET", funcKey(cmp)+": 'unequal' only because of a key of the computed map", where, "every 'false' is returned from inside the range over the source map",
+			"the map comparison answers 'unequal' without a differing key (e.g. computed map non-nil but empty, stored map nil): a workload whose owner has no labels (or annotations) gets its PodGroup rewritten on every reconcile")
+	}
+	c.Floor("O3", "RET map comparisons behind podGroupsEqual", nm, 1)
+
 	// ---- O4: determinism of the grouper plugins
 	var plugFns []*ssa.Function
 	for _, fn := range p.FuncsIn("pkg/podgrouper/podgrouper") {
@@ -315,4 +413,63 @@ func runC18OwnerIdentity(c *Ctx) {
 			"an owner is resolved by name only: after the owner was deleted and re-created under the same name, a leftover pod of the old object is grouped into the new object's PodGroup")
 	}
 	c.Floor("O6", "RET owner resolutions", n, 1)
+}
+
+// C18-O7 (PROV): the label keys are wired to the parameters that mean them. The handler restores the node-pool label
+// and the queue label of the stored PodGroup under the keys it was constructed with; the grouper plugins read the
+// queue and node-pool labels of pods under theirs. The keys travel positionally as plain strings (configs.X →
+// constructor parameter → struct field), so a swap type-checks. For every call inside the pod-grouper whose argument
+// is a value named after one kind of key (…NodePool… / …Queue…) the receiving parameter is named after the same kind.
+func runC18Wiring(c *Ctx) {
+	p := c.P
+	kind := func(name string) string {
+		n := strings.ToLower(name)
+		switch {
+		case strings.Contains(n, "nodepool"):
+			return "node-pool"
+		case strings.Contains(n, "queue") && (strings.Contains(n, "key") || strings.Contains(n, "label")):
+			return "queue"
+		}
+		return ""
+	}
+	n := 0
+	var fns []*ssa.Function
+	fns = append(fns, p.FuncsIn("pkg/podgrouper")...)
+	fns = append(fns, p.FuncsIn("cmd/podgrouper")...)
+	for _, fn := range fns {
+		if isTestdataOrMock(fn) {
+			continue
+		}
+		for _, in := range instrsIn(fn, func(x ssa.Instruction) bool { _, ok := x.(ssa.CallInstruction); return ok }) {
+			call := in.(ssa.CallInstruction)
+			cal := calleeOf(call)
+			if cal == nil || !hasModPrefix(cal) || len(cal.Params) != len(call.Common().Args) {
+				continue
+			}
+			for i, a := range call.Common().Args {
+				b, ok := a.Type().Underlying().(*types.Basic)
+				if !ok || b.Kind() != types.String {
+					continue
+				}
+				src := ""
+				switch t := termOf(a); {
+				case t.lastField() != "":
+					src = t.lastField()
+				case t.Op == "param":
+					src = t.Name
+				}
+				if idx := strings.LastIndex(src, ":"); idx >= 0 {
+					src = src[idx+1:]
+				}
+				ka, kp := kind(src), kind(cal.Params[i].Name())
+				if ka == "" || kp == "" {
+					continue
+				}
+				n++
+				c.Check(ka == kp, "O7", "PROV", fmt.Sprintf("%s: %s receives %s as %s", funcKey(fn), cal.Name(), src, cal.Params[i].Name()), instrPos(in), ka+" key → "+kp+" key parameter",
+					fmt.Sprintf("the %s label key (%s) is passed where %s expects its %s label key (%s): the pod-grouper restores / reads the wrong label, e.g. a node-pool label removed by its owner is written back on the next reconcile", ka, src, cal.Name(), kp, cal.Params[i].Name()))
+			}
+		}
+	}
+	c.Floor("O7", "PROV label-key hand-overs", n, 2)
 }
